@@ -381,6 +381,12 @@ func printJSONDate(data []byte, toplevel bool, result *bytes.Buffer) error {
 
 func printJSONTime(data []byte, toplevel bool, result *bytes.Buffer) error {
 	raw := binary.LittleEndian.Uint64(data[:8])
+	// The packed form of a negative time is the negation of the packed
+	// form of its absolute value (TIME_to_longlong_time_packed).
+	negative := int64(raw) < 0
+	if negative {
+		raw = -raw
+	}
 	value := raw >> 24
 	hour := (value >> 12) & 0x03ff // 10 bits starting at 12th
 	minute := (value >> 6) & 0x3f  // 6 bits starting at 6th
@@ -391,7 +397,7 @@ func printJSONTime(data []byte, toplevel bool, result *bytes.Buffer) error {
 		result.WriteString("CAST(")
 	}
 	result.WriteString("CAST('")
-	if value&0x8000000000 != 0 {
+	if negative {
 		result.WriteByte('-')
 	}
 	fmt.Fprintf(result, "%02d:%02d:%02d", hour, minute, second)
